@@ -189,7 +189,7 @@ SPECS = {
         "monitors": [("c08-conservation", mon_conservation), ("c08-linearizable", mon_linearizable)],
         "transitions": transitions, "nontrivial": nontrivial, "model_applies": model_applies,
         "all_transitions": ["kind-token", "kind-aimd", "withdraw-granted", "withdraw-refused", "deposit", "skip", "preempted-inside-fetch-update"],
-        "model_modules": ["TR.Model.Budget", "TR.Lemmas.Budget"],
+        "model_modules": ["TR.Model.Budget", "TR.Lemmas.Budget", "TR.Mutants.DepositLoadStore"],
         "lean_files": ["TR.Model.Budget", "TR.Lemmas.Budget"],
         "sizes": (500, 20000),
         "rule": "2..4 OS threads running programs of 1..4 try_withdraw/deposit calls on one real budget (token bucket or AIMD) with hooked "
